@@ -122,4 +122,22 @@ PROPS = {
         "level_note": "Trusted: Lean kernel; models Chain/Escrow.lean (abstract ledgers; the link from DivvyingTips to validPay is C09_divvy_sum + C09_allocated_sum_exact); dispute-account cover is checked with C13 (not here). cosmos-sdk bank/staking are real in the harness.",
         "trusted": ["model Chain/Escrow.lean", "harness chain_test.go / hist_test.go"],
     },
+    "C07": {
+        "props_module": "LayerModel.Props.C07",
+        "families": [("oracle7", 64, 1500, "chain")],
+        "gen": ["facts", "formulas"],
+        "rule": "oracle7: chain histories (real app; tips, reports by two reporters incl. hostile values, deposit and withdrawal query ids, unregistered types, governance changes of cycle list and report window, disputes/evidence) with >= 5 accepted oracle transactions and >= 2 aggregates; distinct = distinct operation sequences",
+        "level_text": "Theorems about the oracle round state machine (Chain/Oracle.lean, ~330 lines mirroring tip / SubmitValue / SetValue / deposit reveal / SetAggregatedReport / RotateQueries / ClearOldqueries): bridge-withdrawal queries are never reportable; an accepted report implies sufficient unjailed stake, a decodable value, a registered non-withdrawal type and (unless a deposit) a current round with tip or cycle-list flag whose window has not closed; a later report of the same reporter in the round replaces the earlier one; aggregating a round adds exactly one aggregate (next sequence number, block time key) and removes exactly that round's query; the aggregation pass leaves rounds without reports (their tips included) untouched; rotation keeps the current query while its window is open and otherwise moves to the next entry with wrap-around. The model is tied to the code by executing the REAL application on generated histories: every tip/report accept-reject decision, the whole Query collection, the whole Aggregates collection and the cycle pointer after EVERY block must equal the model's.",
+        "level_note": "Trusted: Lean kernel; hand-written model Chain/Oracle.lean; reporter stake, data-spec window/method and value validity enter the model as observed inputs (computed by the harness on the pre-block state with the real reporter/registry keepers); rewards are not part of this model (C09/C04). The tip-carries statement is proved for the aggregation pass (rotation's clean-up only removes zero-amount records by definition).",
+        "trusted": ["model Chain/Oracle.lean", "harness chain_test.go / hist_test.go / fam_oracle_test.go", "env inputs: ReporterStake, registry spec, ValidateValue"],
+    },
+    "C08": {
+        "props_module": "LayerModel.Props.C08",
+        "families": [("oracle8", 64, 1500, "chain")],
+        "gen": ["facts", "formulas"],
+        "rule": "oracle8: same histories as oracle7 (they include bridge withdrawals, disputes and evidence, i.e. all three writers of aggregates) with >= 2 aggregates; distinct = distinct operation sequences",
+        "level_text": "Theorems: storing under a fresh key appends to that query's chronological list and changes no other entry; sequence numbers grow by one; timestamps stay strictly increasing when block times do; flagging changes only the flag and never clears it; 'current' is the last entry, 'by index' the i-th, 'data before T' the latest unflagged entry strictly before T (maximality proved from the ordering invariant), 'timestamp before/after T' the greatest below / least above T. Tie: the oracle model must reproduce the real Aggregates collection after every block (incl. bridge withdrawals and flags from funded disputes and evidence); the real getters are probed at timestamps before/between/equal/after stored ones and at indexes in and out of range and compared with the model; an implementation-only monitor checks that consecutive dumps differ only by appended entries and raised flags.",
+        "level_note": "Trusted: Lean kernel; model Chain/Oracle.lean; strictly increasing block time is an assumption (CometBFT); the bridge snapshot's prev/next timestamps use the same two getters (GetTimestampBefore/After) whose characterisation is C08_ts_before_after.",
+        "trusted": ["model Chain/Oracle.lean", "harness fam_oracle_test.go (dumps, getter probes)"],
+    },
 }
